@@ -73,7 +73,18 @@ func hasProp(props []string, id string) bool {
 
 // CheckFunc symbolically executes fn against contract c and returns its obligations.
 func CheckFunc(P *Program, fn *ssa.Function, c *FuncContract) (rep *FuncReport) {
+	return checkFunc(P, fn, c, false)
+}
+
+// SweepFunc: zero-annotation run of a function: only the bounds / arithmetic safety conditions are obligations; nil
+// dereferences, callee preconditions and frames are assumed, loops are cut with the trivial invariant.
+func SweepFunc(P *Program, fn *ssa.Function, c *FuncContract) (rep *FuncReport) {
+	return checkFunc(P, fn, c, true)
+}
+
+func checkFunc(P *Program, fn *ssa.Function, c *FuncContract, sweep bool) (rep *FuncReport) {
 	ex := NewExec(P)
+	ex.sweep = sweep
 	ex.top = fn
 	ex.topC = c
 	ex.curProps = c.Props
